@@ -94,7 +94,7 @@ class Slice(NullCell):
             return None
         elif tag == 1:
             len_ = self.load_uint(9)
-            return ExternalAddress(self.load_uint(len_), len_)
+            return ExternalAddress(self.load_uint(len_) if len_ else 0, len_)
         # todo: addr_var
         is_anycast = False
         if self.load_bool():
